@@ -7,7 +7,7 @@
 use ruma_common::{
     api::{request, response, Metadata},
     metadata,
-    serde::StringEnum,
+    serde::{OrdAsRefStr, PartialOrdAsRefStr, StringEnum},
     OwnedUserId,
 };
 use serde::{Deserialize, Serialize};
@@ -102,7 +102,7 @@ impl Contact {
 
 /// An informal description of what the contact methods are used for.
 #[doc = include_str!(concat!(env!("CARGO_MANIFEST_DIR"), "/src/doc/string_enum.md"))]
-#[derive(Clone, PartialEq, Eq, PartialOrd, Ord, StringEnum)]
+#[derive(Clone, PartialEq, Eq, PartialOrdAsRefStr, OrdAsRefStr, StringEnum)]
 #[ruma_enum(rename_all = "m.role.snake_case")]
 #[non_exhaustive]
 pub enum ContactRole {
